@@ -661,7 +661,10 @@ pub fn run(w: &World, seed: u64, rng: &mut Rng, schedules: Vec<Value>, n: usize,
     // ---- policy probes (C15): DownloadPolicy::matches and the textual form of filters ----
     trace.emit(json!({"ev":"Reset","run":"probes","seed":seed,"ops":[],"backend":"mem","ndocs":0,"real":[],"docs":[],"hashes":[]}));
     let samples: Vec<Vec<u8>> = vec![vec![], vec![0], vec![0, 255], vec![1], vec![255], b"a:b".to_vec(), b"utf8:x".to_vec(),
-        vec![0xc3, 0x28], vec![0xff, 0xfe], b"hex:00".to_vec(), "\u{e9}t\u{e9}".as_bytes().to_vec(), vec![b':'], vec![0, b':', 200]];
+        vec![0xc3, 0x28], vec![0xff, 0xfe], b"hex:00".to_vec(), "\u{e9}t\u{e9}".as_bytes().to_vec(), vec![b':'], vec![0, b':', 200],
+        // valid UTF-8 that a printer might be tempted to escape: backslashes, quotes, control characters, DEL, NUL
+        b"assets\\img\\".to_vec(), b"it's".to_vec(), b"say \"hi\"".to_vec(), b"line\nbreak\ttab".to_vec(), vec![0], vec![b'a', 0x7f, b'b'],
+        b"\\x41\\u{e9}".to_vec(), b"{}%\r".to_vec()];
     for i in 0..(n * 6) {
         let nf = rng.below(4);
         let filters: Vec<Value> = (0..nf)
